@@ -7,6 +7,7 @@ package main
 
 import (
 	"fmt"
+	"net"
 	"net/http"
 	"os"
 	"sort"
@@ -15,6 +16,7 @@ import (
 	"sync/atomic"
 	"time"
 
+	"github.com/golang-jwt/jwt/v4"
 	"github.com/gorilla/websocket"
 	"github.com/practable/relay/internal/verifhook"
 	"github.com/practable/relay/verifharness/lib"
@@ -58,6 +60,7 @@ type runner struct {
 	admin string
 	stats string
 	n     int64
+	hdr   int32 // 1: connections of the running scenario all carry the same proxy / tracing headers
 }
 
 func (r *runner) bearer(bid string, exp int64) string {
@@ -135,9 +138,28 @@ func (r *runner) run(family string, threads []string, prefix []string) (Case, []
 	})
 }
 
+// proxyHeaders: what a reverse proxy or a tracing client may add, IDENTICAL on every connection that carries them
+// (a relay that keys anything on them confuses connections with each other).
+func proxyHeaders(h http.Header) {
+	h.Set("X-Request-Id", "req-0001")
+	h.Set("X-Correlation-Id", "corr-0001")
+	h.Set("X-Forwarded-For", "203.0.113.7")
+	h.Set("X-Real-Ip", "203.0.113.7")
+	h.Set("Forwarded", "for=203.0.113.7;proto=https")
+	h.Set("Traceparent", "00-0af7651916cd43dd8448eb211c80319c-b7ad6b7169203331-01")
+	h.Set("X-Request-Start", fmt.Sprintf("t=%d.000", time.Now().Unix()))
+}
+
 func (r *runner) dialAs(uri, ua string) *websocket.Conn {
+	return r.dialWith(uri, ua, atomic.LoadInt32(&r.hdr) == 1)
+}
+
+func (r *runner) dialWith(uri, ua string, proxied bool) *websocket.Conn {
 	h := http.Header{}
 	h.Set("User-Agent", ua)
+	if proxied {
+		proxyHeaders(h)
+	}
 	c, _, e := lib.Dial(uri, h)
 	if e != nil {
 		return nil
@@ -149,6 +171,7 @@ func (r *runner) dialAs(uri, ua string) *websocket.Conn {
 // A thread set containing K ("leave") starts with a connection of the booking already joined.
 func (r *runner) runWith(family string, threads []string, choose func(i int, en []string) (string, error)) (Case, [][]string) {
 	id := atomic.AddInt64(&r.n, 1)
+	atomic.StoreInt32(&r.hdr, int32(id%2))
 	bid := fmt.Sprintf("bk%d-%d", os.Getpid(), id)
 	exp := time.Now().Unix() + 600
 	cs := Case{Family: family, Threads: threads}
@@ -437,7 +460,7 @@ func (r *runner) denyAllowDenyAgain() []lib.Violation {
 func (r *runner) oddBookingIDs() []lib.Violation {
 	var out []lib.Violation
 	exp := time.Now().Unix() + 600
-	for n, bid := range []string{"k3+Zp/8Qx+A=", "a%2Fb c", "b\u00fcch-\u00fc & co", "x%25y+z", strings.Repeat("L", 300)} {
+	for n, bid := range []string{"k3+Zp/8Qx+A=", "a%2Fb c", "b\u00fcch-\u00fc & co", "x%25y+z", strings.Repeat("L", 300), "trailing-blank ", " leading-blank", "trailing-nl\n", "tab\tinside"} {
 		topic := fmt.Sprintf("t-odd-%d-%d", os.Getpid(), n)
 		ua := fmt.Sprintf("odd-%d-%d", os.Getpid(), n)
 		bad := func(clause, detail string) {
@@ -489,6 +512,71 @@ func (r *runner) bearer2(topic, bid string, exp int64) string {
 	return lib.Sign(r.rl.Claims(topic, bid, []string{"read", "write"}, now-5, now-5, exp), r.rl.Secret)
 }
 
+// abandonedRequests: after an acknowledged deny, duplicates of that deny (and session requests for the booking) arrive
+// from callers that have already gone: the request is written and the socket closed at once. Whatever the server does
+// with them, the acknowledged cancellation stays: only an explicit allow or its expiry lifts it.
+func (r *runner) abandonedRequests() []lib.Violation {
+	var out []lib.Violation
+	bid := fmt.Sprintf("gone-%d", os.Getpid())
+	topic := "t-" + bid
+	exp := time.Now().Unix() + 600
+	bad := func(clause, detail string, n int) {
+		out = append(out, lib.Violation{Clause: clause, Case: -1, Detail: detail,
+			Replay: map[string]interface{}{"booking_id": bid, "abandoned_requests": n}, Key: clause + ":abandoned-requests"})
+	}
+	st, uri, _ := r.rl.Session(topic, r.bearer2(topic, bid, exp))
+	if st != 200 {
+		return out
+	}
+	ua := "gone-" + bid
+	c := r.dialWith(uri, ua, false)
+	if c == nil || !r.waitListed(ua, true) {
+		return out
+	}
+	defer c.Close()
+	if r.rl.Deny(bid, exp, r.admin).Status != 204 {
+		return out
+	}
+	host := strings.TrimPrefix(r.rl.AccessURL, "http://")
+	now := time.Now().Unix()
+	bulky := lib.Sign(jwt.MapClaims{"aud": []interface{}{r.rl.AccessURL}, "iat": now - 5, "nbf": now - 5, "exp": now + 600,
+		"scopes": []interface{}{"relay:admin"}, "note": strings.Repeat("x", 6000)}, r.rl.Secret)
+	send := func(line, bearer string) {
+		conn, err := net.DialTimeout("tcp", host, 2*time.Second)
+		if err != nil {
+			return
+		}
+		fmt.Fprintf(conn, "%s HTTP/1.1\r\nHost: %s\r\nAuthorization: %s\r\nContent-Length: 0\r\n\r\n", line, host, bearer)
+		conn.Close()
+	}
+	n := 0
+	for i := 0; i < 12; i++ {
+		b := r.admin
+		if i%2 == 0 {
+			b = bulky
+		}
+		send(fmt.Sprintf("POST /bids/deny?bid=%s&exp=%d", bid, exp), b)
+		send("POST /session/"+topic, r.bearer2(topic, bid, exp))
+		n += 2
+		if i%4 == 3 {
+			time.Sleep(30 * time.Millisecond)
+		}
+	}
+	time.Sleep(400 * time.Millisecond)
+	dl, _ := r.rl.BidList("deny", r.admin)
+	if !has(dl, bid) {
+		bad("deny-erased", fmt.Sprintf("a deny was acknowledged (204); then %d requests for the same booking (duplicates of the deny, session requests) were written by callers that went away at once: the booking is no longer on the deny list (%q), and no allow was ever sent", n, dl), n)
+	}
+	if st2, _, _ := r.rl.Session(topic, r.bearer2(topic, bid, exp)); st2 == 200 {
+		bad("session-accepted-after-deny", fmt.Sprintf("after an acknowledged deny and %d abandoned requests a new session request for the booking is accepted", n), n)
+	}
+	if r.stableListed(ua) {
+		bad("connection-survives-deny", "the connection that was live at the deny is still joined after the abandoned duplicates", n)
+	}
+	r.rl.Allow(bid, time.Now().Unix()+1, r.admin)
+	return out
+}
+
 // busyBooking: a booking with many live connections (past any per-booking batch size) is denied: every one
 // of them must be closed, and the connections of another booking stay.
 func (r *runner) busyBooking() []lib.Violation {
@@ -510,7 +598,7 @@ func (r *runner) busyBooking() []lib.Violation {
 		if st != 200 {
 			return
 		}
-		if c := r.dialAs(uri, ua); c != nil {
+		if c := r.dialWith(uri, ua, true); c != nil {
 			conns <- jc{ua, c}
 		}
 	}
@@ -737,6 +825,7 @@ func main() {
 		go func() {
 			v := append(r.denyHoldsUntilItsExpiry(), r.denyAllowDenyAgain()...)
 			v = append(v, r.oddBookingIDs()...)
+			v = append(v, r.abandonedRequests()...)
 			timed <- append(v, r.busyBooking()...)
 		}()
 		// exhaustive: every interleaving of the two-actor families
